@@ -29,20 +29,27 @@ CHECKS = {
         text="For every generated operation with variables, 5-10 argument scripts (minimal, everything supplied, random with explicit None/omitted/unset nested fields; input "
              "models built by alias and by Python field name) are passed to the real method. The parameter for each variable is learned by a probe call. The captured "
              "payload must equal the abstract value exactly (omitted absent, None as null), be accepted by spec coercion, and deliver the same resolver arguments as "
-             "the authored operation executed directly; omitting a required argument must raise TypeError before any request.",
+             "the authored operation executed directly; omitting a required argument must raise TypeError before any request. A sixth of the cases rename a custom "
+             "scalar to Upload: calls carrying files must travel as multipart with null at every file position, one part per file with its own name, type and bytes "
+             "(the reference server decodes the body and puts the file's token back before executing); the traced OpenTelemetry client is driven where the rotation says so.",
         note=GEN_NOTE, design="4/C03"),
     "C04": dict(
         category="exploration",
         technique="runtime monitoring: real CLI run per case in a fresh fork, outcome classifier (success / documented refusal / other), import of every emitted module, pydantic completeness, __all__ and reported-files comparison",
         text="Generation is run through the real CLI on seeded valid inputs across the configuration rotation; any failure that is not a documented refusal whose cause is "
              "present in the input is a violation; every emitted module is parsed and imported, every model must be complete, __all__ must equal what __init__ binds "
-             "and the reported file list must equal the files on disk.",
+             "and the reported file list must equal the files on disk; every files_to_include entry (non-Python files included) must arrive under its own name with its "
+             "own bytes; a second generation after editing an included file must refresh the copy. The three pruning flag combinations, custom module names and "
+             "custom operations rotate over the cases.",
         note=GEN_NOTE, design="4/C04"),
     "C05": dict(
         category="exploration",
         technique="runtime monitoring: single-point corruption of conformant responses fed to the real result models (must raise ValidationError) + evaluated-annotation vs independent GraphQL-type image",
         text="Every conformant response from the reference server is corrupted at one position in each of the ways the statement lists and validated by the real generated model; "
-             "the evaluated annotation of every reached result field is compared with an independent image of its GraphQL type.",
+             "every __typename position is replaced by an unknown name, a real object type that cannot occur there (preferring types that a type condition of the document "
+             "can match) and an abstract type's name; the evaluated annotation of every reached result field is compared with an independent image of its GraphQL type, "
+             "and the __typename Literals of the classes behind every abstract field may admit no object type outside the position's possible types. A fifth of the "
+             "cases configure custom scalars with a strict parse function.",
         note=GEN_NOTE, design="4/C05"),
     "C06": dict(
         category="exploration",
@@ -56,28 +63,33 @@ CHECKS = {
         technique="runtime monitoring: call log of instrumented parse/serialize functions shipped via files_to_include; exactly-once multiset oracle over unique-token occurrences in responses and arguments; wire/attribute value comparison",
         text="Custom scalars of seeded schemas are configured in six variants (custom class with parse+serialize, str+parse, str+serialize, pydantic-native datetime via "
              "dotted path, deprecated import key, unconfigured). The call log of the instrumented functions must equal, as a multiset, the non-null occurrences of the "
-             "scalar in the response (parse) and in the caller's arguments (serialize); attributes must be parse(raw) of their own token and wire values serialize(value).",
+             "scalar in the response (parse) and in the caller's arguments (serialize); attributes must be parse(raw) of their own token and wire values serialize(value). "
+             "Tokens include falsy-but-present values; a quarter of the cases rename one scalar to Upload so that the other scalars travel on the multipart route; the "
+             "traced OpenTelemetry client is driven where the rotation says so.",
         note=GEN_NOTE, design="4/C07"),
     "C08": dict(
         category="exploration",
         technique="runtime monitoring: isinstance/validate checks on objects returned by the real client at spread sites listed by an independent document walker; import outcome under permuted/split definition orders; __bases__ inspection for @mixin",
         text="For fragment-heavy seeded inputs an independent walker lists every direct spread of an inline-free fragment on its own type; objects returned at those "
              "positions must be instances of fragments.<Fragment>, which must validate the same sub-payload and exist whatever else uses the fragment; 3-6 permutations "
-             "and file splits of the definitions must all generate and import; every @mixin class must be a base of exactly the classes generated for its node.",
+             "and file splits of the definitions must all generate and import; every @mixin class must be a base of exactly the classes generated for its node, and the "
+             "class validating a path reached through a named or conditional fragment must still inherit the mixin its field names.",
         note=GEN_NOTE, design="4/C08"),
     "C09": dict(
         category="exploration",
         technique="runtime monitoring: differential observation of four generated packages (flag combinations) against an independent closure; per-class source-segment comparison; identical-call request/return comparison; icontract postcondition on the real _get_dependencies_of_type evaluated in situ",
         text="Four packages per seeded case (include_all_inputs x include_all_enums) are generated and imported; the class sets of input_types.py / enums.py must equal "
-             "an independently computed closure (inputs through variables transitively; enums through variables, retained inputs, result fields, fragments), each retained "
+             "an independently computed closure (inputs through variables transitively; enums through variables, retained inputs, result fields at positions whose type "
+             "conditions can apply, fragments), each retained "
              "class must be textually identical to its unpruned counterpart, and identical calls must send identical requests and return identical values in all four.",
         note=GEN_NOTE, design="4/C09"),
     "C10": dict(
         category="exploration",
         technique="runtime monitoring: differential observation of real generator subprocesses under varied PYTHONHASHSEED, file creation orders/mtimes and pre-existing target; sha256 comparison of every produced file",
         text="The same inputs are generated by real `python -m ariadne_codegen` subprocesses under 5 (thorough: 13) hash seeds, as directories whose files are created in three "
-             "shuffled orders, and over an existing generation; every produced file must be byte-identical within each factor group. Both strategies and the plugin sets "
-             "that collect names in sets are covered.",
+             "shuffled orders (a seeded shuffle of Path.glob / os.scandir / os.listdir stands for another file system), and over an existing generation; every produced file "
+             "must be byte-identical within each factor group. Both strategies, the plugin sets that collect names in sets, custom scalar types imported from the target "
+             "package / a module in the working directory / relatively, and overlapping-interface inputs are covered.",
         note="Trusted: sha256. Hash seeds and creation orders are sampled, not enumerated; inputs are biased to the set-iteration sites named in the anchors.",
         design="4/C10"),
     "C11": dict(
@@ -86,7 +98,8 @@ CHECKS = {
         text="Seeded variable trees (dicts, lists, models, UNSET, None, Uploads at any depth, shared Uploads, enum/datetime leaves) x kwargs are sent through all "
              "six bundled client variants; every captured request is decoded and compared with an expectation the generator computed in parallel, and the "
              "variants are compared pairwise. 32 concurrent calls on one client are run under asyncio and thread schedules (with yield injection); each "
-             "request must equal the one the same call sends in isolation and each response must reach its caller. Observed interleavings are counted.",
+             "request must equal the one the same call sends in isolation and each response must reach its caller. Observed interleavings are counted. Call sequences "
+             "on one client share the caller's kwargs objects, retry with the same Upload from wherever the stream was left, and start from sniffed streams.",
         note="Trusted: httpx.MockTransport, requests_toolbelt multipart decoder. Schedules are sampled, not enumerated.",
         design="4/C11",
     ),
@@ -131,13 +144,15 @@ CHECKS = {
         technique="runtime monitoring: the module emitted by the real graphqlschema run is executed in a fresh fork (the .graphql/.gql file parsed back) and the resulting schema object compared with graphql-core's reading of the source, by print_schema and by a structural fact dump",
         text="Seeded schemas with descriptions, deprecations, custom/repeatable directives, specifiedBy, custom roots, schema description and defaults of every kind are run "
              "through the real `graphqlschema` strategy for all target formats and variable names; the produced schema must print identically and agree on every listed "
-             "structural fact (kinds, interfaces, fields, args, defaults, descriptions, deprecations, enum values, union members, directive locations/repeatability, roots).",
+             "structural fact (kinds, interfaces, fields, args, defaults, descriptions, deprecations, enum values, union members, directive locations/repeatability, roots). "
+             "A quarter of the cases edit the schema slightly and generate again onto the existing target (must equal a fresh generation); a seventh take the schema "
+             "through an in-process introspection endpoint (everything the tool's introspection query can carry must be reproduced).",
         note="Trusted: graphql-core build_schema / print_schema as the reference reading of SDL.",
         design="4/C16"),
     "C17": dict(
         category="fault_enumeration",
         technique="runtime monitoring with fault injection: sys.addaudithook file-system monitor + before/after tree snapshot + exception classifier around the real CLI, over an enumerated catalogue of invalid configurations / syntax errors / invalid schemas / invalid operations x pre-existing target states",
-        text="Every documented configuration constraint (2-4 concrete violations each), four syntax-error placements, one invalid schema per graphql-core validation branch and "
+        text="Every documented configuration constraint (2-4 concrete violations each), nine syntax-error placements (single files, directories, files invalid alone but valid when glued to a neighbour, empty files), one invalid schema per graphql-core validation branch and "
              "one or more invalid operations per specified validation rule (all confirmed invalid by graphql-core in the harness first) are run through the real CLI for both "
              "strategies with the target absent / empty / holding a previous generation / holding user files. The exception must be the corresponding CodeGenException naming "
              "the item, and the audit hook must see no create/write/mkdir/remove under the target. Valid configurations (unknown keys, deprecated section, ...) must be accepted "
@@ -151,7 +166,8 @@ CHECKS = {
              "suffix/case variants is mapped by the real functions under postconditions (identifier, not keyword, not a pydantic attribute, deterministic, idempotent, "
              "letters and digits kept in order) for the four flag sets the generator uses. B: the contracts are re-bound into every generator module and evaluated during "
              "real generation from schemas using one dirty name class at a time; the package is loaded and driven so the wire name is observed. C: colliding pairs are "
-             "placed in each scope kind: generation must fail or both names must stay usable.",
+             "placed in each scope kind: generation must fail or both names must stay usable; single names that meet a method local, keyword or attribute only after "
+             "the mapping are placed next to an unrelated partner in five scopes (enum values also as input defaults): wire name kept, value delivered.",
         note="Part A is exhaustive over the stated reduced alphabet and bound only; real names use a larger alphabet (case classes are represented by a/b/A/B).",
         design="4/C18"),
     "C19": dict(
@@ -159,8 +175,9 @@ CHECKS = {
         technique="runtime monitoring: differential comparison of packages generated from one schema supplied as file / directory partitions / in-process introspection endpoint behind the real httpx.post call site (recorder logs url, headers, verify); failure-class enumeration for introspection responses",
         text="Each seeded schema is supplied as one SDL file, as 2-3 random partitions into .graphql/.graphqls/.gql files in nested directories, and through an introspection "
              "endpoint answered by graphql-core on the harness-built schema. Result modules must be textually identical, enums and client identical modulo class/import order, "
-             "input models must agree on names, required-ness and defaults; the recorder checks the headers ($ENV resolved) and the verify flag actually sent. 14 introspection "
-             "failure classes and 6 malformed urls must surface as IntrospectionError without creating the package.",
+             "input models must agree on names, required-ness and defaults; the recorder checks the headers ($ENV resolved, dollar signs elsewhere literal) and the verify flag "
+             "actually sent, for both strategies. 25 introspection failure classes (statuses, non-JSON incl. invalid UTF-8, JSON scalars, malformed data) and 6 malformed "
+             "urls must surface as IntrospectionError without creating the package.",
         note="Trusted: graphql-core's introspection of the reference schema stands for a conformant remote endpoint; TLS itself is not exercised (verify is observed at the call boundary).",
         design="4/C19"),
 }
